@@ -245,6 +245,7 @@ func (r *Replica) lockSync(ctx context.Context) error {
 	if err := r.syncSem.Acquire(ctx, 1); err != nil {
 		return fmt.Errorf("wait for replica sync: %w", context.Cause(ctx))
 	}
+	verifhook.Yield("replica:sync_acquired")
 	return nil
 }
 
